@@ -463,12 +463,14 @@ example : ∃ s, (capsSys true).run (Caps.init 2 1)
 /-! ## Syncer.Run / Close -/
 
 /-- `Syncer.Close` returns only after all background work has stopped: `Run` has returned, the
-three loops have exited, no connection goroutine and no `runPeer` is left in the thread group
+three loops have exited, no connection goroutine and no `runPeer` is left in the thread group, and
+every goroutine started by a sync round has been joined: no block-ingestion goroutine is left
+(`ingest = 0`; it is not a member of the thread group — `syncLoop` joins it before it returns)
 (pinned and repaired code) -/
 theorem syncer_close_waits (fixed : Bool) (tr : List TDStep) (s : TD)
     (h : (tdSys fixed).run {} tr = some s) (hr : s.close = .returned) :
     s.wg = 0 ∧ s.run = .done ∧ s.accept = .exited ∧ s.bgRun = 0 ∧ s.bgSend = 0 ∧ s.conns = 0 ∧
-      s.sO = 0 ∧ s.sC = 0 ∧ s.tgClosed = true := by
+      s.sO = 0 ∧ s.sC = 0 ∧ s.tgClosed = true ∧ s.ingest = 0 := by
   have hi := TD.inv_reach fixed s ⟨tr, h⟩
   have h0 := hi.ret hr
   have hw := hi.wg
@@ -477,7 +479,27 @@ theorem syncer_close_waits (fixed : Bool) (tr : List TDStep) (s : TD)
     cases hrn : s.run <;> first | rfl | (exfalso; simp [hrn, RunPc.live] at hw; omega)
   have hacc : s.accept = .exited := by
     cases ha : s.accept <;> first | rfl | (exfalso; simp [ha, LoopSt.live] at hw; omega)
-  exact ⟨h0, hrun, hacc, by omega, by omega, by omega, by omega, by omega, hi.tgc.mpr (Or.inr hr)⟩
+  have hbr : s.bgRun = 0 := by omega
+  have hing : s.ingest = 0 := by
+    rcases Nat.eq_zero_or_pos s.ingest with h | h
+    · exact h
+    · have := hi.sync (hi.ing h); omega
+  exact ⟨h0, hrun, hacc, hbr, by omega, by omega, by omega, by omega, hi.tgc.mpr (Or.inr hr), hing⟩
+
+/-- a sync round's ingestion goroutine keeps `syncLoop`, hence `Close`, waiting: while it runs,
+`syncLoop` cannot return and `Close` cannot return -/
+theorem sync_round_joined (fixed : Bool) (tr : List TDStep) (s : TD)
+    (h : (tdSys fixed).run {} tr = some s) (hi : 0 < s.ingest) :
+    TD.step fixed s (.bgExit true) = none ∧ TD.step fixed s .bgFail = none ∧
+      TD.step fixed s .closeRet = none := by
+  have hinv := TD.inv_reach fixed s ⟨tr, h⟩
+  have hsr := hinv.ing hi
+  have hbr := hinv.sync hsr
+  have hw := hinv.wg
+  refine ⟨by simp [TD.step]; omega, by simp [TD.step]; omega, ?_⟩
+  simp only [TD.step]
+  rw [if_neg]
+  intro hc; omega
 
 /-- work submitted after `Close` is rejected: a connection goroutine that reaches the thread group
 after `Close` began to wait joins nothing (`Connect` returns `ErrClosed`), and a peer whose
@@ -521,7 +543,7 @@ waits for ever (only the remote end could unblock it) -/
 theorem late_peer_witness :
     ∃ s, (tdSys false).run {}
       [.bgFail, .runRecv, .runCloseL, .runSweep, .connStart, .connAdd, .peerAdd true,
-       .closeL, .closeStop, .acceptExit, .runRecv, .bgExit, .runRecv] = some s ∧
+       .closeL, .closeStop, .acceptExit, .runRecv, .bgExit false, .runRecv] = some s ∧
       s.close = .waiting ∧ TD.canProgress false s = false ∧ s.sO = 1 :=
   ⟨_, rfl, by decide⟩
 
@@ -530,7 +552,7 @@ when `Close` is called and the sweep runs before the thread group is stopped -/
 theorem late_peer_witness_race :
     ∃ s, (tdSys false).run {}
       [.connStart, .closeL, .acceptExit, .runRecv, .runCloseL, .runSweep, .connAdd, .peerAdd true,
-       .closeStop, .bgExit, .runRecv, .bgExit, .runRecv] = some s ∧
+       .closeStop, .bgExit false, .runRecv, .bgExit true, .runRecv] = some s ∧
       s.close = .waiting ∧ TD.canProgress false s = false :=
   ⟨_, rfl, by decide⟩
 
@@ -546,7 +568,7 @@ theorem close_progress_pinned_false :
 theorem late_peer_repaired :
     ∃ s, (tdSys true).run {}
       [.bgFail, .runRecv, .runCloseL, .runSweep, .connStart, .connAdd, .peerAdd true,
-       .closeL, .closeStop, .acceptExit, .runRecv, .bgExit, .runRecv,
+       .closeL, .closeStop, .acceptExit, .runRecv, .bgExit false, .runRecv,
        .watch, .peerErr, .peerRemove, .runPeersDone, .runReturn, .closeRet] = some s ∧
       s.close = .returned ∧ s.leaked = 0 :=
   ⟨_, rfl, by decide⟩
@@ -557,7 +579,7 @@ the real code before the repair (37 of 60 runs of `Connect` racing `Close`) -/
 theorem leak_witness :
     ∃ s, (tdSys false).run {}
       [.connStart, .closeL, .closeStop, .connAdd, .peerAdd true, .peerRemove, .acceptExit, .runRecv,
-       .runCloseL, .runSweep, .bgExit, .runRecv, .bgExit, .runRecv, .runPeersDone, .runReturn,
+       .runCloseL, .runSweep, .bgExit false, .runRecv, .bgExit true, .runRecv, .runPeersDone, .runReturn,
        .closeRet] = some s ∧
       s.close = .returned ∧ s.leaked = 1 :=
   ⟨_, rfl, by decide⟩
@@ -566,10 +588,16 @@ theorem leak_witness :
 theorem no_leak (tr : List TDStep) (s : TD) (h : (tdSys true).run {} tr = some s) : s.leaked = 0 :=
   (TD.inv_reach true s ⟨tr, h⟩).leak rfl
 
+-- Close during a sync round: it returns only after the ingestion goroutine has ended
+example : ∃ s, (tdSys true).run {}
+    [.syncStart, .closeL, .closeStop, .acceptExit, .runRecv, .runCloseL, .runSweep, .bgExit false,
+     .runRecv, .ingestDone, .bgExit true, .runRecv, .runPeersDone, .runReturn, .closeRet] = some s ∧
+    s.close = .returned ∧ s.ingest = 0 := ⟨_, rfl, by decide⟩
+example : (tdSys true).run {} [.syncStart, .closeL, .closeStop, .bgExit true] = none := rfl
 -- non-vacuity of `syncer_close_waits` / `close_progress`: a full shutdown with a connected peer
 example : ∃ s, (tdSys true).run {}
     [.connStart, .connAdd, .peerAdd true, .closeL, .closeStop, .acceptExit, .runRecv, .runCloseL,
-     .runSweep, .peerErr, .peerRemove, .bgExit, .bgExit, .runRecv, .runRecv, .runPeersDone,
+     .runSweep, .peerErr, .peerRemove, .bgExit false, .bgExit true, .runRecv, .runRecv, .runPeersDone,
      .runReturn, .closeRet] = some s ∧ s.close = .returned ∧ s.wg = 0 := ⟨_, rfl, by decide⟩
 
 /-! ## the atomic steps assumed above are the ones in the source
